@@ -23,6 +23,7 @@ CONSTANTS MaxTokens, SwappedIds
 Lits == {"lit_a", "lit_space", "lit_unicode", "lit_percent"}   \* lit_percent: text with printf directives ("9% %s %d")
 Braces == {"lbrace2", "rbrace2"}              \* the escapes {{ and }}
 FieldOk == {"f_local", "f_attr", "f_index", "f_call", "f_percent",
+            "f_global",             \* a module global: a value that is NOT among the variables of the collected frame
             "f_neq", "f_colon",     \* expressions that hold '!' or ':' outside brackets (a != 9, a lambda, a slice
                                      \* in a call, a dict display): the field is the WHOLE text between the braces
             "f_zero", "f_empty"}     \* fields whose value is falsy (0, the empty string): still values, rendered as text
